@@ -72,6 +72,10 @@ def run_shard(params, rec):
         rec.count("mode:%s" % mode)
         maxline = rng.choice([1, 2, 4, 50])
         opts = dict(jit_maxline=maxline, max_exec_per_call=rng.choice([0, 1, 3]))
+        if with_loop:
+            # a loop whose counter the body overwrites never leaves one translated block of the C back end
+            # when calls are unlimited: a finite per-call limit brings it back to the step budget (as in C20)
+            opts["max_exec_per_call"] = max(1, opts["max_exec_per_call"])
         rec.ev()
         try:
             out = jitlib.run(spec, backend, prog, options=opts, max_steps=200)
